@@ -48,7 +48,7 @@ theorem C01_tie_rule_anchors :
     Gen.calls_qbft_UponDecided =
       ["ValidateDecided", "InstanceForHeight", "FindInstance", "addNewInstance", "NewInstance", "AddMsg", "addNewInstance", "IsDecided", "AddMsg",
        "LongestUniqueSignersForRoundAndRoot", "AddMsg", "FindInstance", "SaveInstance", "NewDecidedHandler"] ∧
-    Gen.calls_qbft_node_commitQuorumForRoundRoot = ["LongestUniqueSignersForRoundAndRoot", "HasQuorum"] ∧
+    Gen.calls_qbft_node_commitQuorumForRoundRoot = ["LongestUniqueSignersForRoundAndRoot", "HasQuorum", "Share.HasQuorum"] ∧
     Gen.calls_qbft_node_isProposalJustification =
       ["valCheck", "validRoundChangeForData", "HasQuorum", "RoundChangePrepared", "HasQuorum", "highestPrepared", "HashDataRoot",
        "validSignedPrepareForHeightRoundAndRoot"] := by decide
